@@ -872,7 +872,7 @@ func (r *schedRun) refID(ref *runnerRef) int {
 // schedOptsClass: request class k asks for NumCtx = 8+8k; a runner is started with NumCtx * numParallel
 // and class = k + 2*mm with mm = 0 / 1 / 2 for use_mmap unset / true / false (a fresh *bool per request: options that are
 // equal by value are one class, whatever the pointers)
-func schedOptsClass(o api.Options, np int) int {
+func schedOptsClass(o api.Options, np int, adapters, projectors []string) int {
 	mm := 0
 	if o.UseMMap != nil {
 		mm = 2
@@ -880,8 +880,19 @@ func schedOptsClass(o api.Options, np int) int {
 			mm = 1
 		}
 	}
-	return o.NumCtx/max(1, np)/8 - 1 + 2*mm
+	c := o.NumCtx/max(1, np)/8 - 1 + 2*mm
+	// classes 6.. : the model carries an adapter (+6) / a projector (+12) — the other two comparisons of needsReload
+	if len(adapters) > 0 {
+		c += 6
+	}
+	if len(projectors) > 0 {
+		c += 12
+	}
+	return c
 }
+
+// the adapter / projector a request of class >= 6 / >= 12 carries (files that do not exist: the estimator counts 0 bytes)
+var schedAdapter, schedProjector = []string{"/verif-no-such-dir/adapter.gguf"}, []string{"/verif-no-such-dir/projector.gguf"}
 
 func schedNumCtx(class int) int { return 8 + 8*(class%2) }
 
@@ -945,7 +956,7 @@ func (r *schedRun) setup() {
 	s.getCpuFn = r.gpus
 	s.newServerFn = func(gpus discover.GpuInfoList, model string, f *ggml.GGML, adapters []string, projectors []string, opts api.Options, numParallel int) (llm.LlamaServer, error) {
 		mi := r.modelIndex(model)
-		k := schedOptsClass(opts, numParallel)
+		k := schedOptsClass(opts, numParallel, adapters, projectors)
 		var last *schedMock
 		for _, m := range r.mocks {
 			if m.model != mi {
@@ -1049,7 +1060,7 @@ func (r *schedRun) setup() {
 						m.id, qi, q.model, schedNumCtx(q.opts), m.numCtx, m.np, want))
 				}
 				if m.opts/2 != q.opts/2 {
-					r.wrongOpt = append(r.wrongOpt, fmt.Sprintf("runner %d for request %d was started with use_mmap class %d, the request has %d", m.id, qi, m.opts/2, q.opts/2))
+					r.wrongOpt = append(r.wrongOpt, fmt.Sprintf("runner %d for request %d was started with use_mmap / adapter / projector class %d, the request has %d", m.id, qi, m.opts/2, q.opts/2))
 				}
 				m.opts = q.opts // what it was asked to serve
 				if r.stats != nil && m.np != 1 {
@@ -1171,7 +1182,7 @@ func (r *schedRun) sessDur(s string) *api.Duration {
 func (r *schedRun) enabled(e schedEv) bool {
 	switch e.kind {
 	case "submit", "submitr":
-		return e.a >= 0 && e.a < schedNModels && e.b >= 0 && e.b <= 5 && len(r.reqs) < schedMaxReqs
+		return e.a >= 0 && e.a < schedNModels && e.b >= 0 && (e.b <= 5 || e.kind == "submit" && e.b <= 23) && len(r.reqs) < schedMaxReqs
 	case "closefail":
 		return e.a >= 0 && e.a < len(r.mocks) && (e.b == 0 || e.b == 1)
 	case "envspell":
@@ -1211,6 +1222,12 @@ func (r *schedRun) apply(e schedEv) bool {
 		r.stats["ev_skipped_"+e.kind]++
 		return false
 	}
+	if e.kind == "submitr" {
+		e.b %= 6 // the routed path takes the model from the store: no adapter / projector variants
+	}
+	if e.kind == "submit" || e.kind == "submitr" {
+		e.b %= 24
+	}
 	r.lastEv = e
 	slog.Debug("verif event", "ev", e.String(), "census", fmt.Sprint(r.cen))
 	var subq *schedReq
@@ -1225,13 +1242,26 @@ func (r *schedRun) apply(e schedEv) bool {
 		opts := api.DefaultOptions()
 		opts.NumCtx = schedNumCtx(e.b)
 		reqOpts := map[string]any{"num_ctx": float64(schedNumCtx(e.b))}
-		if e.b/2 != 0 {
-			v := e.b/2 == 1
+		if (e.b/2)%3 != 0 {
+			v := (e.b/2)%3 == 1
 			opts.UseMMap = &v // a fresh pointer per request, as every decoded API request has
 			reqOpts["use_mmap"] = v
 			r.stats["reqs_explicit_use_mmap"]++
 		}
 		mdl, sess := r.models[e.a], r.sessDur(e.sess)
+		if e.b >= 6 && !q.routed {
+			// same model path, other adapters / projectors (what a Modelfile with ADAPTER lines resolves to)
+			m2 := *mdl
+			if (e.b/6)%2 == 1 {
+				m2.AdapterPaths = schedAdapter
+				r.stats["reqs_with_adapter"]++
+			}
+			if e.b/12 == 1 {
+				m2.ProjectorPaths = schedProjector
+				r.stats["reqs_with_projector"]++
+			}
+			mdl = &m2
+		}
 		granted := func(id int, nilLlama bool) {
 			q.nRunner++
 			q.lastRunner = id
@@ -1443,6 +1473,13 @@ func (r *schedRun) monitors(e schedEv, subq *schedReq, sn schedSnap) {
 		}
 		if q.nRunner > 0 && !q.done && q.lastRunner >= 0 && r.mocks[q.lastRunner].closeCalls > 0 {
 			r.flag("c01-closed-in-use", fmt.Sprintf("runner %d (model %d) was closed while request %d, which received it, is not done", q.lastRunner, r.mocks[q.lastRunner].model, q.id))
+		}
+		// "never ... unloaded while that request is still in progress": the runner a request in progress holds is still THE
+		// entry of its model in s.loaded (Properties/C01Bridge.lean `in_progress_runner_is_loaded_and_open`)
+		if q.nRunner > 0 && !q.done && q.lastRunner >= 0 && q.lastRunner < len(r.mocks) {
+			if id, ok := sn.loaded[r.mocks[q.lastRunner].model]; !ok || id != q.lastRunner {
+				r.flag("c01-unloaded-in-use", fmt.Sprintf("runner %d (model %d) is no longer the loaded entry of its model (entry: %v %d) while request %d, which received it, is not done", q.lastRunner, r.mocks[q.lastRunner].model, ok, id, q.id))
+			}
 		}
 		if q.replies() > 1 {
 			r.flag("c02-double-reply", fmt.Sprintf("request %d received %d replies (%d runners, %d errors)", q.id, q.replies(), q.nRunner, q.nErr))
@@ -1683,6 +1720,35 @@ func (r *schedRun) finish() bool {
 	r.quiesce()
 	r.cancel()
 	s := r.s
+	// Shutdown as in routes.go Serve (`schedDone(); sched.unloadAllRunners()`), Properties/C02Shutdown.lean
+	// `shutdown_closes_every_started_runner`: right after unloadAllRunners every runner that was ever started has had its
+	// Close() called (the ones still loaded by unloadAllRunners, the others by the scheduler before), none of them twice on
+	// account of the shutdown.  Skipped when a goroutine is parked for good (known deadlocks: it may hold loadedMu, which
+	// unloadAllRunners needs) or a load / health check was still in flight when the trace ended.
+	wedged := r.cen.mutex != 0
+	for _, l := range r.l2 {
+		if strings.HasPrefix(l.kind, "c02-deadlock") {
+			wedged = true
+		}
+	}
+	if !wedged {
+		before := make([]int, len(r.mocks))
+		for i, m := range r.mocks {
+			before[i] = m.closeCalls
+		}
+		s.unloadAllRunners()
+		r.stats["shutdown_unloadAllRunners"]++
+		for i, m := range r.mocks {
+			switch {
+			case m.closeCalls == 0:
+				r.flag("c02-shutdown-not-closed", fmt.Sprintf("runner %d was started, and after the scheduler was stopped and unloadAllRunners ran its Close() has never been called (loaded=%d entries)", i, len(s.loaded)))
+			case m.closeCalls > before[i] && before[i] > 0:
+				r.flag("c01-double-close", fmt.Sprintf("runner %d: Close() had been called %d time(s) and unloadAllRunners called it again", i, before[i]))
+			case m.closeCalls > before[i]:
+				r.stats["shutdown_closed_by_unloadAllRunners"]++
+			}
+		}
+	}
 	go func() {
 		for {
 			select {
@@ -1788,6 +1854,7 @@ func schedRunOne(t *testing.T, models []*Model, cfg schedCfg, src schedSource, o
 			g.finalStats(r)
 		}
 		res.clean = r.finish()
+		res.l2 = r.l2 // finish() runs the shutdown monitor
 		if !res.clean {
 			onUnclean(res)
 		}
